@@ -280,8 +280,15 @@ def run_exec(e, binary, scratch, slot=0):
         if rc < 0 or rc in (134, 139, 99, 98, 97):
             sig = -rc if rc < 0 else rc
             fr = '/'.join(_frames(err, 2))
-            e.violations.append(dict(key='crash:%s:rc%s:%s' % (e.harness, sig, fr), what='process died without a summary',
-                                     witness=err[-3000:]))
+            if 'ThreadSanitizer: CHECK failed: tsan_rtl_proc.cpp' in err and 'proc1' in err:
+                # TSan's own invariant "a fiber is attached to at most one OS thread": the annotated context switch of
+                # one vCPU switched to a photon thread that another vCPU had not switched away from yet
+                e.violations.append(dict(key='tsan:fiber-resumed-while-another-vcpu-still-runs-it',
+                                         what='a photon thread was switched to while another vCPU was still executing it '
+                                              '(TSan runtime check on the annotated fibers)', witness=err[-3000:]))
+            else:
+                e.violations.append(dict(key='crash:%s:rc%s:%s' % (e.harness, sig, fr), what='process died without a summary',
+                                         witness=err[-3000:]))
             e.status = 'violation'
         else:
             e.status = 'error'
